@@ -414,9 +414,21 @@ class StmtMixin:
                 st.env[n] = self.fresh_val(st, cur.t, n)
         # heap fields / globals written anywhere in the body (incl. callees' modifies)
         fields, globs = self.written_in(body_nodes)
+        fresh_only = self.fresh_only_fields()
         for (cls, f) in sorted(fields):
             k, arr, t = self.heap_arr(st, cls, f)
-            st.heap[k] = z3.Const(fresh_name('H_%s_%s' % k), arr.sort())
+            fr = z3.Const(fresh_name('H_%s_%s' % k), arr.sort())
+            if k in fresh_only:
+                # objects that existed at function entry keep their entry value of this field
+                ea = st.ghost['__entry_heap__'].get(k, arr)
+                r = z3.Int(fresh_name('r'))
+                st.heap[k] = z3.Lambda([r], z3.If(r < st.ghost['__entry_alloc__'], z3.Select(ea, r), z3.Select(fr, r)))
+            else:
+                st.heap[k] = fr
+        if fields:
+            na = z3.Int(fresh_name('alloc'))
+            st.assume(na >= st.alloc)
+            st.alloc = na
         for g in sorted(globs):
             st.glob[g] = self.fresh_val(st, self.m.globals[g], 'G_' + g.replace('.', '_'))
         return names
